@@ -270,6 +270,18 @@ func runC02(r *Run) int {
 				}
 			}
 		}
+		// directly built Temporal struct (exported fields only, nothing decoded)
+		w.Eval(1)
+		to := lib.Obj{Kind: lib.K3T, T3: m3.NewTemporal()}
+		to.SetVer(lib.Ver3[ver])
+		for m := spec.AV; m <= spec.RC; m++ {
+			to.SetField(m, lib.C3[m][v.Val(m)])
+		}
+		if got, pan := to.Score(); pan != nil || !tenthEq(got, sc.Temp) {
+			c := Case{Type: "v3struct", Kind: lib.K3T.String()}
+			c.SetInput(v.Canonical(spec.LTemp))
+			w.Violate(Violation{Monitor: "C02", Check: "temporal score of a directly built Temporal equals the temporal equation", Case: c, Observed: got, Expected: float64(sc.Temp) / 10})
+		}
 		if idx%51841 == 0 {
 			w.Sample(map[string]interface{}{"vector": s, "expected_temporal": float64(sc.Temp) / 10, "expected_base": float64(sc.Base) / 10})
 		}
@@ -288,7 +300,7 @@ func runC02(r *Run) int {
 		r.Inconclusive("%d valid vectors were not decoded / %d queries panicked", r.Counter("valid_vector_not_decoded"), r.Counter("score_panicked"))
 	}
 	return r.Finish("all 518,400 (version, base, E, RL, RC) vectors through the temporal decoder (every X seed-determined spelled or omitted, a third in random token order) and "+
-		map[bool]string{true: "all", false: "a quarter"}[envFrac == 1]+" of them through the environmental decoder's TemporalMetrics() (half with random environmental metrics added); oracle = exact integer ceil of rounded-base x weights; distinct non-trivial = vectors whose expected temporal score differs from the base score",
+		map[bool]string{true: "all", false: "a quarter"}[envFrac == 1]+" of them through the environmental decoder's TemporalMetrics() (half with random environmental metrics added), and every one as a directly built Temporal struct; oracle = exact integer ceil of rounded-base x weights; distinct non-trivial = vectors whose expected temporal score differs from the base score",
 		true, nontrivial.Load(), 518400, 100000, TrustedBase)
 }
 
@@ -589,7 +601,10 @@ func replayScore3(r *Run, c Case) {
 	k := kindByName(c.Kind)
 	switch c.Type {
 	case "v3struct":
-		p := spec.Parse3(s, spec.LEnv)
+		p := spec.Parse3(s, max(k.Level(), 0))
+		if !p.Accept {
+			p = spec.Parse3(s, spec.LEnv)
+		}
 		if !p.Accept {
 			fmt.Println("replay: struct case does not parse:", s)
 			return
@@ -601,6 +616,9 @@ func replayScore3(r *Run, c Case) {
 			e.TemporalMetrics().Score(), float64(exp.Temp)/10, e.BaseMetrics().Score(), float64(exp.Base)/10)
 		if !tenthEq(got, exp.Env) && (r.ID == "C03" || k == lib.K3E) {
 			w.Violate(Violation{Monitor: r.ID, Check: "environmental score (struct)", Case: c, Observed: got, Expected: float64(exp.Env) / 10})
+		}
+		if !tenthEq(e.TemporalMetrics().Score(), exp.Temp) && r.ID == "C02" {
+			w.Violate(Violation{Monitor: r.ID, Check: "temporal score (struct)", Case: c, Observed: e.TemporalMetrics().Score(), Expected: float64(exp.Temp) / 10})
 		}
 		if !tenthEq(e.BaseMetrics().Score(), exp.Base) && r.ID == "C01" {
 			w.Violate(Violation{Monitor: r.ID, Check: "base score (struct)", Case: c, Observed: e.BaseMetrics().Score(), Expected: float64(exp.Base) / 10})
